@@ -150,6 +150,11 @@ def run_case(spec):
         out.extra_evals = len(base)
         if base != again:
             out.problem("C07:generator-not-reproducible", "two generators with identical parameters produced different workloads")
+        if wl["random_seed"] < 2 ** 63:
+            # the workload depends on the VALUE of the seed, not on the type it is handed over in
+            import numpy as np
+            if gen_fingerprint({**wl, "random_seed": np.int64(wl["random_seed"])}) != base:
+                out.problem("C07:generator-not-reproducible", f"random_seed = np.int64({wl['random_seed']}) and random_seed = {wl['random_seed']} give different workloads")
         if base != varied:
             k = next((i for i, (a, b) in enumerate(zip(base, varied)) if a != b), None)
             out.problem("C07:workload-depends-on-non-workload-parameter", f"changing only {sorted(other)} changed the workload (first difference at event {k})")
